@@ -385,7 +385,7 @@ func ruleCheckRefusals(c *chk.Ctx) {
 						which += fmt.Sprintf("(%d)", k)
 					}
 				}
-				return fmt.Sprintf("%s%s%s", which, op, g.Name())
+				return fmt.Sprintf("%s%s%s", which, op, typeGlobalRole(c, g))
 			}
 		}
 		if ir.IsNilConst(y) {
